@@ -240,6 +240,7 @@ CHECKS = {
             mc("calls-0", "MC_C03.tla", "MC_C03_0.cfg"),
             mc("calls-1", "MC_C03.tla", "MC_C03_1.cfg"),
             mc("calls-concat", "MC_C03.tla", "MC_C03_concat.cfg"),
+            mc("calls-optional-params", "MC_C03.tla", "MC_C03_opt2.cfg"),
             mc("calls-2", "MC_C03.tla", dict(quick=None, thorough="MC_C03_2.cfg")),
             mc("calls-3", "MC_C03.tla", dict(quick=None, thorough="MC_C03_3.cfg")),
             lang("calls", "rich", 4000, 150000, ["--nctx", "6", "--depth", "3", "--callpct", "70"], shards=SH),
@@ -306,6 +307,7 @@ CHECKS = {
             mc("hex5", "MC_C06.tla", dict(quick="MC_C06_hex5.cfg", thorough=None), replay_cmd="replay-lit"),
             mc("int-boundaries", "MC_C06.tla", "MC_C06_intbounds.cfg", replay_cmd="replay-lit", workers=2),
             mc("index-boundaries", "MC_C06.tla", "MC_C06_indexbounds.cfg", replay_cmd="replay-lit", workers=2),
+            mc("int-items", "MC_Text.tla", dict(quick="MC_Text_intitems4.cfg", thorough="MC_Text_intitems5.cfg"), workers=6),
             mc("ip-items", "MC_C06.tla", dict(quick="MC_C06_ip6.cfg", thorough="MC_C06_ip7.cfg"), replay_cmd="replay-lit"),
             mc("ip-addresses", "MC_C06.tla", dict(quick="MC_C06_ipeq6.cfg", thorough="MC_C06_ipeq7.cfg"), replay_cmd="replay-lit"),
             mc("ip-blocks-and-ranges", "MC_C06.tla", "MC_C06_blocks.cfg", replay_cmd="replay-lit"),
